@@ -828,7 +828,9 @@ def get_attr_external(interp, base, name, missing_ok=False):
             if name == 'args':
                 return TupleV(list(base.args[1:]))
             if name == '__traceback__':
-                return T('attr', base, name)
+                # an exception object built by this very call has not been
+                # raised yet: no traceback
+                return K(None)
         if base.op == 'bytes' and (name in (
                 'startswith', 'decode', 'index', 'find', 'endswith', 'hex')
                 or name in PURE_STR_METHODS):
@@ -1692,6 +1694,12 @@ def b_dict(interp, args, kwargs):
                 d.set(k, v)
             d.unknown = src.unknown
         elif isinstance(src, T):
+            if kwargs:
+                t = T('call', 'dict', src, *[
+                    T('kw', k, interp.termify(v))
+                    for k, v in sorted(kwargs.items())])
+                interp.types[t] = 'dict'
+                return t
             return T('call', 'dict', src)
         else:
             for pair in interp.iterate(src):
